@@ -725,26 +725,36 @@ impl TieredEngine {
         &self,
         doc_id: u64,
     ) -> Option<(Vec<f32>, std::collections::HashMap<String, String>)> {
-        if let Some(metadata) = self.cold_tier.fetch_metadata(doc_id) {
-            if let Some((embedding, coherence)) = self.hot_tier.get_with_coherence(doc_id) {
-                match self.canonical_vector_state(
-                    doc_id,
-                    &embedding,
-                    coherence,
-                    "document-with-metadata hot-tier hit",
-                ) {
-                    CanonicalVectorState::Match => return Some((embedding, metadata)),
-                    CanonicalVectorState::TokenMismatch | CanonicalVectorState::LocalCorruption => {
-                        self.discard_stale_hot_mirror(doc_id, "document-with-metadata hot-tier hit")
+        // The vector and the metadata returned together must belong to the same canonical write,
+        // so both (and the token) are read in ONE cold-tier critical section. Reading metadata
+        // first and the vector afterwards let a concurrent overwrite slip in between.
+        if let Some(Some((embedding, metadata, coherence))) = self
+            .cold_tier
+            .bulk_fetch_with_coherence(&[doc_id])
+            .into_iter()
+            .next()
+        {
+            // Keep scrubbing stale / corrupted mirrors on this path.
+            if let Some((hot_embedding, hot_coherence)) = self.hot_tier.get_with_coherence(doc_id) {
+                if hot_coherence != coherence
+                    || !embedding_matches_token(&hot_embedding, hot_coherence)
+                {
+                    match self.canonical_vector_state(
+                        doc_id,
+                        &hot_embedding,
+                        hot_coherence,
+                        "document-with-metadata hot-tier hit",
+                    ) {
+                        CanonicalVectorState::TokenMismatch
+                        | CanonicalVectorState::LocalCorruption => self.discard_stale_hot_mirror(
+                            doc_id,
+                            "document-with-metadata hot-tier hit",
+                        ),
+                        CanonicalVectorState::Match | CanonicalVectorState::Missing => {}
                     }
-                    CanonicalVectorState::Missing => {}
                 }
             }
-            if let Some((embedding, _coherence)) =
-                self.cold_tier.fetch_document_with_coherence(doc_id)
-            {
-                return Some((embedding, metadata));
-            }
+            return Some((embedding, metadata));
         }
 
         if self.hot_tier.exists(doc_id) {
@@ -966,9 +976,22 @@ impl TieredEngine {
                     "bulk query hot-tier hit",
                 ) {
                     CanonicalVectorState::Match => {
-                        if let Some(canonical_metadata) = self.cold_tier.fetch_metadata(doc_id) {
-                            results[i] =
-                                Some((embedding, canonical_metadata, PointQueryTier::HotTier));
+                        // Pair the mirrored vector with metadata read in the same critical
+                        // section as the token it is validated against; if the canonical record
+                        // changed in between, fall back to the (atomic) cold-tier fetch below.
+                        let canonical = self
+                            .cold_tier
+                            .bulk_fetch_with_coherence(&[doc_id])
+                            .into_iter()
+                            .next()
+                            .flatten();
+                        if let Some((_, canonical_metadata, canonical_coherence)) = canonical {
+                            if canonical_coherence == coherence {
+                                results[i] =
+                                    Some((embedding, canonical_metadata, PointQueryTier::HotTier));
+                            } else {
+                                missing_indices.push(i);
+                            }
                         } else {
                             warn!(
                                 doc_id,
